@@ -205,7 +205,15 @@ impl Pager {
             .truncate(false)
             .open(&path)?;
 
-        if !existed || file.metadata()?.len() == 0 {
+        // A crash between set_len and the first meta write of a brand-new file leaves two
+        // zero-filled pages; nothing was ever stored in it, so initialise it again.
+        let never_initialised = existed && file.metadata()?.len() == (PAGE_SIZE * 2) as u64 && {
+            let mut first = [0u8; PAGE_SIZE];
+            read_page_raw(&file, META_PAGE_ID, &mut first)?;
+            first.iter().all(|b| *b == 0)
+        };
+
+        if !existed || file.metadata()?.len() == 0 || never_initialised {
             let meta = Meta::new();
             let bitmap = Bitmap::new();
             #[cfg(nervusdb_verif)]
